@@ -108,10 +108,12 @@ void TimeoutMonitor<T>::onTimerTick()
     if (value_number_ == 0)
         sp_timer_->disable();
 
-    if (cb_) {
+    //! 用副本来调用：回调里可能 cleanup()，它会清掉 cb_
+    Callback cb = cb_;
+    if (cb) {
         ++cb_level_;
         for (auto value : tobe_handle)
-            cb_(value);
+            cb(value);
         --cb_level_;
     }
 }
